@@ -41,7 +41,7 @@ def main():
         r = sh(f"git -C {repo} apply --whitespace=nowarn {patch}")
         if r.returncode != 0:
             print("PATCH-DOES-NOT-APPLY", r.stderr.strip()[:300]); return
-    b = sh(f"cargo build --release --offline --target-dir {v}/build/harness", cwd=f"{v}/harness", env=dict(os.environ, CARGO_NET_OFFLINE="true"))
+    b = sh(f"cargo build --release --offline --target-dir {v}/build/harness && cargo build --profile plainrelease --offline --target-dir {v}/build/harness", cwd=f"{v}/harness", env=dict(os.environ, CARGO_NET_OFFLINE="true"))
     if b.returncode != 0:
         print("BUILD-FAILED", b.stderr[-600:]);
         sh(f"git -C {repo} checkout -q -- ."); return
